@@ -110,6 +110,10 @@ def replay(cex):
                     if op == 'scale':
                         f.scale(v)
                         factor = v
+                    elif op == 'ter':
+                        from csep.core.catalogs import CSEPCatalog
+                        o0 = lat['origins'][0]
+                        f.target_event_rates(CSEPCatalog(data=[('a', 0, o0[1] + lat['dh'] / 4, o0[0] + lat['dh'] / 4, 10.0, MAG0[0] + 0.01)]), scale=True)
                     else:
                         from csep.utils.time_utils import decimal_year
                         t = rdt.datetime(2010, 7, 1) if v == 'inside' else rdt.datetime(2012, 1, 1)
@@ -326,7 +330,7 @@ def _job_scale(job):
     rates_t = [z3.Real('r%d' % i) for i in range(len(rows0))]
     v1, v2 = z3.Real('v1'), z3.Real('v2')
     ops = [z3.Int('op%d' % i) for i in range(3)]
-    OPN = ['scale v1', 'scale v2', 'test date inside', 'test date outside']
+    OPN = ['scale v1', 'scale v2', 'test date inside', 'test date outside', 'target_event_rates(scale=True)']
     tu = C.real_csep() and None
     from csep.utils.time_utils import decimal_year
     start, end = rdt.datetime(2010, 1, 1), rdt.datetime(2011, 1, 1)
@@ -338,13 +342,18 @@ def _job_scale(job):
             core.assume(r >= 0)
         core.assume(z3.And(v1 > 0, v2 > 0))
         for o in ops:
-            core.assume(z3.And(o >= 0, o < 4))
+            core.assume(z3.And(o >= 0, o < 5))
         rows, f = _load(L, vfs, job, rates_t, start_date=start, end_date=end)
+        cats = L.load('csep.core.catalogs')
+        o0, dh0 = job['lat']['origins'][0], job['lat']['dh']
         hist = []
         for o in ops:
-            k = core.concretize(SInt(o), 0, 3)
+            k = core.concretize(SInt(o), 0, 4)
             hist.append(k)
-            if k == 0:
+            if k == 4:
+                # a read-only request (per-day rates of a target event) in the middle of the history must not change the forecast
+                f.target_event_rates(cats.CSEPCatalog(data=[('a', 0, o0[1] + dh0 / 4, o0[0] + dh0 / 4, 10.0, MAG0[0] + 0.01)]), scale=True)
+            elif k == 0:
                 f.scale(XR(v1))
             elif k == 1:
                 f.scale(XR(v2))
@@ -361,7 +370,8 @@ def _job_scale(job):
         hist = P.value[0] if P is not None and P.kind == 'ok' else [0, 0, 0]
         return {'kind': 'scale', 'lat': job['lat'], 'nmag': job['nmag'], 'flag0': None, 'order': 'row', 'swap': False,
                 'rates': [f(r) for r in rates_t],
-                'ops': [('scale', f(v1)) if k == 0 else ('scale', f(v2)) if k == 1 else ('date', 'inside' if k == 2 else 'outside') for k in hist]}
+                'ops': [('scale', f(v1)) if k == 0 else ('scale', f(v2)) if k == 1 else ('ter', None) if k == 4 else ('date', 'inside' if k == 2 else 'outside')
+                        for k in hist]}
 
     def vio(P):
         hist, data, tot, sp, mg = P.value
